@@ -19,10 +19,19 @@ import (
 )
 
 const (
-	repoDir  = "/repo"
 	verifDir = "/verif"
 	modPath  = "github.com/gopcua/opcua"
 )
+
+// repoDir is /repo. VERIF_REPO points the tool at a scratch copy instead; it is used only by
+// tools/seedcheck.sh to try seeded changes without touching /repo, and redirects evidence and
+// replay output to $VERIF_OUT so that the committed files are never written from a copy.
+var repoDir = func() string {
+	if d := os.Getenv("VERIF_REPO"); d != "" {
+		return d
+	}
+	return "/repo"
+}()
 
 // harnessPkgs maps harness directory names to repository-relative package dirs.
 func relPkg(dir string) string {
